@@ -14,6 +14,9 @@ def with_fail(prog, k, mode):
     return "\n".join([lines[0], "fail %d %s" % (k, mode)] + lines[1:])
 
 
+FAULT_RND = random.Random(14)
+
+
 def enumerate_faults(c, exe, base, module, cfg, tag, cap, sd=None, insert=None, **kw):
     """run base scenarios clean, read the number N of library allocations, then every k in 1..N, both modes"""
     execs, crashes = vlib.run_programs(exe, base, os.path.join(c.dir, tag + "base"), tag=tag, procs=8)
@@ -27,7 +30,14 @@ def enumerate_faults(c, exe, base, module, cfg, tag, cap, sd=None, insert=None, 
             if "allocs" in ev:
                 n = max(n, ev["allocs"])
         total += n
-        for k in range(1, min(n, cap) + 1):
+        # every allocation index if there are at most `cap`; otherwise the first and the last third of the budget and a sample of
+        # the ones in between (so that allocations made late in a scenario are refused as well)
+        if n <= cap:
+            ks = list(range(1, n + 1))
+        else:
+            a = max(1, cap // 3)
+            ks = sorted(set(list(range(1, a + 1)) + list(range(n - a + 1, n + 1)) + FAULT_RND.sample(range(a + 1, n - a + 1), min(cap - 2 * a, n - 2 * a))))
+        for k in ks:
             progs.append((insert or with_fail)(p, k, "once"))
             progs.append((insert or with_fail)(p, k, "persist"))
     c.cov.setdefault("fault_points", {})[tag] = {"scenarios": len(base), "allocations": total, "faulted_runs": len(progs)}
@@ -59,6 +69,7 @@ def known_http(prog, ex, line):
 
 def main(c):
     rnd = random.Random(c.seed)
+    FAULT_RND.seed(c.seed * 1000 + 14)
     exe_ds = c12.build(c)
     exe_heap = c13.build(c)
     c12.model_checks(c)      # ElasticArray with FAILS = {TRUE, FALSE}: FailUnchanged, Capacity under every realloc outcome
@@ -93,7 +104,21 @@ def main(c):
         P = evgen.random_program(rnd)
         P.main = [x for op in P.main for x in ([op, op] if op.startswith("reg_") else [op])]      # every registration is tried twice
         base_ev.append(P.text())
-    enumerate_faults(c, c04.build(c), base_ev, "EventsTrace", "EventsTrace.cfg", "ev", c.pick(12, 60), sd=c04.SD, insert=ev_insert)
+    exe_ev = c04.build(c)
+    enumerate_faults(c, exe_ev, base_ev, "EventsTrace", "EventsTrace.cfg", "ev", c.pick(12, 60), sd=c04.SD, insert=ev_insert)
+    # 17 / 33 / 65 descriptors registered at once: the poll array and the descriptor table grow (by doubling) in the middle of a
+    # registration; after the refusal the same and further registrations are made, everything becomes ready and is dispatched
+    base_evbig = []
+    for nfd in c.pick((17, 33), (16, 17, 18, 33, 34, 65)):
+        P = evgen.Prog(nfd + 3)
+        for fd in range(nfd + 3):
+            sl = P.slot([], 0)
+            P.main += ["reg_sock %d %d %s" % (sl, fd, "RW"[fd % 2])] * 2
+        for fd in range(nfd + 3):
+            P.main.append("env %d 3" % fd)
+        P.main += ["run"] * 6
+        base_evbig.append(P.text())
+    enumerate_faults(c, exe_ev, base_evbig, "EventsTrace", "EventsTraceBig.cfg", "evmany", 400, sd=c04.SD, insert=ev_insert)
     # ---- asynchronous I/O ----
     base_net = [c06.random_program(rnd) for _ in range(c.pick(12, 120))] + [c06.accept_program(rnd) for _ in range(c.pick(6, 60))]
     base_net += [c06.connect_program({"plan": rnd.choice([["O"], ["F", "O"], ["R", "P"], ["F", "F"], ["P", "N"]]), "timeo": rnd.random() < 0.5, "cancel": 0}) for _ in range(c.pick(8, 60))]
@@ -105,9 +130,19 @@ def main(c):
     def http_insert(p, k, mode):
         return p.replace("\nend\n", "\nfail %d %s\nend\n" % (k, mode))
     base_http = [c08.wellformed(c08.simple_response(rnd, i), rnd, i) for i in range(c.pick(6, 60))] + [c08.hostile(rnd, i) for i in range(c.pick(4, 40))]
+    # interim responses that carry header lines, then a final response with headers (every allocation of these is refused in turn)
+    for i, (fr, nb) in enumerate((("clen", 5), ("chunked", 100), ("eof", 5))):
+        st = c08.simple_response(rnd, 100 + i, n=nb, nh=2)
+        st["framing"], st["interim"] = fr, ["long", "long"] if i == 1 else ["long"]
+        base_http.append(c08.wellformed(st, rnd, 100 + i))
+    directed_http = set(base_http[-3:])
     # the allocation count of an HTTP request is in its end event; scenarios with several MB of body are left out
     base_http = [p for p in base_http if len(p) < 200000]
-    enumerate_faults(c, c08.build(c), base_http, "HttpTrace", "HttpTrace.cfg", "http", c.pick(14, 60), sd=c08.SD, insert=http_insert, run_timeout=1200, tv_timeout=1500, known=known_http)
+    exe_http = c08.build(c)
+    enumerate_faults(c, exe_http, [p for p in base_http if p not in directed_http], "HttpTrace", "HttpTrace.cfg", "http", c.pick(14, 60), sd=c08.SD, insert=http_insert,
+                     run_timeout=1200, tv_timeout=1500, known=known_http)
+    enumerate_faults(c, exe_http, [p for p in base_http if p in directed_http], "HttpTrace", "HttpTrace.cfg", "httpdir", 300, sd=c08.SD, insert=http_insert,
+                     run_timeout=1200, tv_timeout=1500, known=known_http)
     c.cov["rule"] = ("fault enumeration: for every base scenario the k-th allocation made by library code fails, for every k the scenario reaches "
                      "(capped per scenario, see fault_points), once and persistently from k on; the scenario then continues (retries), releases "
                      "everything and reports the wrapper's live set; each trace is validated by TLC against the abstract specification "
